@@ -1279,7 +1279,7 @@ class KVDef(EntAttribute):
             if all(x in '0123456789-' for x in default_str):
                 file.write(' : ' + default_str)
             else:
-                file.write(f' : "{default_str}"')
+                file.write(f' : "{_fgd_escape(custom_syntax, default_str)}"')
             if self.desc:
                 file.write(' : ')
         else:
